@@ -121,3 +121,40 @@ func c01RunTable(t *testing.T, w int) {
 
 func TestVerifC01TableV4(t *testing.T) { c01RunTable(t, 32) }
 func TestVerifC01TableV6(t *testing.T) { c01RunTable(t, 128) }
+
+// TestVerifC01RegressionTableGetLongerAbsent replays the shrunk failing cases
+// of the GetLonger defect (fixed: see known_findings.txt): more-specifics of a
+// query prefix that is not stored itself, with and without a dummy node for it.
+func TestVerifC01RegressionTableGetLongerAbsent(t *testing.T) {
+	for _, w := range []int{32, 128} {
+		var base kit.Bits
+		if w == 32 {
+			base = kit.V4(0x0a000000, 32)
+		} else {
+			base = kit.V6(0x20010db800000000, 0, 128)
+		}
+		q := base.WithLen(8).Canon()
+		lo := base.WithLen(9).Canon()
+		hi := base.SetBit(8, true).WithLen(9).Canon()
+		a := newC01Table(w)
+		m := kit.NewPfxModel()
+		// only a more specific stored, no node for q at all
+		a.Add(lo, 0)
+		m.Add(lo, 0)
+		if msg := kit.CheckPfxTable(m, a, []kit.Bits{q, lo, hi, base.WithLen(0).Canon()}); msg != "" {
+			t.Fatalf("w=%d one more-specific: %s", w, msg)
+		}
+		// both halves stored: q exists as dummy node
+		a.Add(hi, 1)
+		m.Add(hi, 1)
+		if msg := kit.CheckPfxTable(m, a, []kit.Bits{q, lo, hi, base.WithLen(0).Canon()}); msg != "" {
+			t.Fatalf("w=%d dummy node: %s", w, msg)
+		}
+		// q stored and removed again
+		a.Add(q, 2)
+		a.Remove(q, 2, true)
+		if msg := kit.CheckPfxTable(m, a, []kit.Bits{q, lo, hi, base.WithLen(0).Canon()}); msg != "" {
+			t.Fatalf("w=%d removed query: %s", w, msg)
+		}
+	}
+}
